@@ -1,8 +1,10 @@
 package props
 
 import (
+	"context"
 	"encoding/json"
 	"fmt"
+	"github.com/aundis/formula"
 	"regexp"
 	"strconv"
 	"strings"
@@ -384,8 +386,30 @@ func checkC17(c c17Case) string {
 			return m
 		}
 	}
+	// the subject and the needle as values of a defined string type (`type text string`): a builtin's string
+	// parameter receives their text all the same
+	c17NamedCount++
+	if c17NamedCount%4 == 0 {
+		f := `[startWith(s,t), endWith(s,t), contains(s,t), find(s,t), len(s), lower(s), upper(s), replace(s,t,r), trim(ws), left(s,0), right(s,0), rpad(s,c,0)]`
+		plain := map[string]interface{}{"s": s, "t": t, "r": c.R, "c": c.C, "ws": c.Pre + s + c.Suf}
+		named := map[string]interface{}{"s": c17Text(s), "t": c17Text(t), "r": c17Text(c.R), "c": c17Text(c.C), "ws": c17Text(c.Pre + s + c.Suf)}
+		if p := obs.Parse([]byte(f)); p.OK() {
+			r1, r2 := formula.NewRunner(), formula.NewRunner()
+			r1.SetThis(plain)
+			r2.SetThis(named)
+			a, b := obs.Eval(r1, context.Background(), p.Src.Expression), obs.Eval(r2, context.Background(), p.Src.Expression)
+			if a.String() != b.String() {
+				return fmt.Sprintf("%s with s, t, r, c, ws of type string gives %s, with the same texts held as values of a defined string type %s", f, a, b)
+			}
+		}
+	}
 	return ""
 }
+
+// c17Text is a defined string type, as hosts use for codes and identifiers.
+type c17Text string
+
+var c17NamedCount int
 
 func c17Nontrivial(c c17Case) bool {
 	s, t := c.S, c.T
